@@ -107,6 +107,17 @@ CHECKS = [
         "note": "trusted: ref/codec.py and the explicit convert() expectation (checked against each other on every case)",
     },
     {
+        "property_id": "C09",
+        "level": "model_checking",
+        "design_ref": "DESIGN.md 4/C09",
+        "technique": "exhaustive enumeration of dependency graphs (every edge set over <=3 nodes, 4 in the thorough tier) x operations and target orders against a reference resolution model, plus explicit-state search over read orders of cached definition objects",
+        "text": "Every edge set (self loops and cycles included) over the nodes of four name/version assignments, references spelled absolute and relative, read "
+        "through read_namespace and through read_files for every target subset in every list order; a reference must resolve to exactly the named "
+        "(full name, version), nested types must dump identically to a standalone read of that file, everything else must be a clean "
+        "InvalidDefinitionError within the watchdog; 22 bad-reference families; every read order of the cached definition objects of acyclic graphs.",
+        "note": "trusted: ref/ns.py closure/resolution; graphs bounded at 3 (thorough: a slice of 4-node graphs) definitions; history part uses the internal read()",
+    },
+    {
         "property_id": "C10",
         "level": "model_checking",
         "design_ref": "DESIGN.md 4/C10",
